@@ -279,3 +279,82 @@ def unwind_ident(e, why):
     if e[0] == "drop":
         return "drop(%s)" % e[2]
     return e[0]
+
+
+# ----------------------------------------------------------------------------------
+# C10-R6: no droppable, partially built storage while user code runs in clone
+# ----------------------------------------------------------------------------------
+def rule_clone_unwind(ctx, R):
+    """Clone::clone calls user code (T::clone) while the copy is under construction. The arrays are raw DataPtr
+    buffers without Drop, so a panic there leaks the partial copy and is otherwise harmless. If a *Storage* value
+    (which has Drop, and drops cells [0, len) of every column) is alive across such a call, its len must never
+    count a row whose cells are not all written: judged on the unwind edges (which locals get dropped) and on the
+    order of the len store and the user calls within one iteration."""
+    for S in ctx.storages():
+        cs = roles(ctx, S)["cloner"]
+        if len(cs) != 1:
+            continue
+        f = cs[0]
+        key = "%s::clone" % S.name
+        pairs = []
+        for bi, b in enumerate(f.blocks):
+            t = b["t"]
+            if t["k"] != "call" or not isinstance(t.get("u"), int):
+                continue
+            callee = t["f"]
+            if not callee.get("indirect"):
+                loc = ctx.gecs.lookup(callee)
+                if loc is None and classify_std(callee["path"], callee.get("resolved") if isinstance(callee.get("resolved"), dict) else None) == "no":
+                    continue
+            seen, stack, dropped = set(), [t["u"]], []
+            while stack:
+                x = stack.pop()
+                if x in seen:
+                    continue
+                seen.add(x)
+                tt = f.blocks[x]["t"]
+                if tt["k"] == "drop" and tt["ty"].startswith(S.path + "<"):
+                    dropped.append(x)
+                for k2 in ("t", "u"):
+                    if isinstance(tt.get(k2), int):
+                        stack.append(tt[k2])
+                if tt["k"] == "switch":
+                    stack.extend([bb for _, bb in tt["ts"]] + [tt["o"]])
+            if dropped:
+                pairs.append((bi, callee.get("path", "indirect call"), t["s"]))
+        if not pairs:
+            R.ok("C10-R6", key + "|no-droppable-partial", "no value of the storage type is dropped on any unwind path of clone: a panic in a user Clone leaks the partial copy and drops no unwritten cell", fn=f.key)
+            continue
+        # a storage value is alive across may-unwind calls: its len may only count completely written rows
+        ps = ctx.paths(f)
+        bad = None
+        if ps is None:
+            bad = "path enumeration failed"
+        else:
+            n_len_stores = 0
+            for p in ps:
+                marks = [i for i, e in enumerate(p.effects) if e[0] == "loop"]
+                seg = p.effects[marks[-1]:] if marks else p.effects
+                first_len = None
+                for i, e in enumerate(seg):
+                    if e[0] == "store" and e[5] == f.key:
+                        L = NL(e[1])
+                        if L[0] == "field" and L[2] == "len" and L[1] != ("deref", ("arg", 1)):
+                            n_len_stores += 1
+                            if first_len is None:
+                                first_len = i
+                if first_len is None:
+                    continue
+                for e in seg[first_len + 1:]:
+                    if e[0] == "call" and e[4] == 0:
+                        loc = ctx.gecs.lookup(e[8]) if len(e) > 8 and isinstance(e[8], dict) else None
+                        std_no = loc is None and classify_std(e[2], None) == "no"
+                        if not std_no and (cname(e[2]).endswith("Clone::clone") or loc is None):
+                            bad = "the copy's len is advanced before `%s` runs in the same iteration: if it panics, Drop visits a row whose cells were never written" % cname(e[2])
+                            break
+                if bad:
+                    break
+            if bad is None and n_len_stores == 0:
+                bad = "a storage value with its final len is alive while user Clone code runs (%s): if that panics, Drop visits rows that were never written" % pairs[0][1]
+        R.check(bad is None, "C10-R6", key + "|droppable-partial-consistent", "the partially built storage only ever counts completely written rows",
+                "%s: %s" % (key, bad), where_of(f, pairs[0][2]), fn=f.key)
